@@ -154,6 +154,19 @@ static std::vector<Call> misuse() {
         }
         add("getData(vector," + an + ")", [=](File &f) { DataArray a = A(f, an.c_str()); if (a.dataType() == DataType::String) { std::vector<std::string> x; a.getData(x); } else if (a.dataType() == DataType::Bool) { /* vector<bool> unsupported */ } else { std::vector<double> x; a.getData(x); } });
         add("getData(vector,offset only," + an + ")", [=](File &f) { DataArray a = A(f, an.c_str()); if (a.dataType() == DataType::String) { std::vector<std::string> x(2); a.getData(x, NDSize({1})); } else if (a.dataType() != DataType::Bool) { std::vector<double> x(2); a.getData(x, NDSize({1})); } });
+        add("typed containers with counts of every shape (vector, multi_array; read and write)," + an, [=](File &f) { DataArray a = A(f, an.c_str()); if (a.dataType() == DataType::String || a.dataType() == DataType::Bool) return;
+            NDSize e = a.dataExtent(); size_t r = e.size();
+            // every count vector with entries from {1, 2, extent} per axis (and one axis more / fewer), offset 0 and 1
+            std::vector<NDSize> counts; NDSize c(r, 1);
+            std::function<void(size_t)> rec = [&](size_t d) { if (d == r) { counts.push_back(c); return; } for (ndsize_t v : {(ndsize_t)1, (ndsize_t)2, e[d]}) { c[d] = v; rec(d + 1); } };
+            if (r > 0 && r <= 3) rec(0);
+            { NDSize more(r + 1, 2); counts.push_back(more); if (r > 1) counts.push_back(NDSize(r - 1, 2)); }
+            for (const NDSize &cn : counts) for (ndsize_t o : {(ndsize_t)0, (ndsize_t)1}) { NDSize off(cn.size(), o);
+                vf::guarded([&] { std::vector<double> v; a.getData(v, cn, off); }); vf::guarded([&] { std::vector<double> v(3, 0.0); a.getData(v, cn, off); });
+                vf::guarded([&] { std::vector<int32_t> v(1); a.getData(v, cn, off); }); vf::guarded([&] { std::vector<float> v(7); a.getData(v, cn); });
+                vf::guarded([&] { std::vector<double> v((size_t)std::min<ndsize_t>(cn.nelms(), 4096), 1.0); a.setData(v, off); }); vf::guarded([&] { std::vector<double> v(2, 1.0); a.setData(v, off); });
+                vf::guarded([&] { DataView w(a, e, NDSize(r, 0)); std::vector<double> v; w.getData(v, cn, off); }); vf::guarded([&] { DataView w(a, e, NDSize(r, 0)); std::vector<double> v(2, 1.0); w.setData(v, off); });
+            } });
         add("getData(as Int8," + an + ")", [=](File &f) { DataArray a = A(f, an.c_str()); NDSize e = a.dataExtent(); std::vector<int8_t> x(e.nelms() + 1); a.getData(DataType::Int8, x.data(), e, NDSize(e.size(), 0)); });
         // the whole array read as EVERY element type into a buffer of exactly that many elements
         add("getData(as every type, exact buffer," + an + ")", [=](File &f) { DataArray a = A(f, an.c_str()); NDSize e = a.dataExtent(), z(e.size(), 0); size_t n = (size_t)e.nelms();
